@@ -362,6 +362,11 @@ class Engine(
 
     def append_binary(self, operation: BinaryOperation, lhs: Relation, rhs: Relation) -> Select:
         # Docstring inherited.
+        if lhs.engine != rhs.engine:
+            # One operand belongs to another engine, so this engine must not
+            # add its own markers to it.  The operation either raises or (when
+            # the other operand is a join identity) returns one operand as-is.
+            return operation._finish_apply(lhs, rhs)
         conformed_lhs = self.conform(lhs)
         conformed_rhs = self.conform(rhs)
         return self._append_binary_to_select(operation, conformed_lhs, conformed_rhs)
